@@ -20,6 +20,7 @@ import (
 	"pgregory.net/rapid"
 
 	"verif/harness"
+	"verif/harness/rlmodel"
 )
 
 const prop = "C05"
@@ -72,11 +73,13 @@ func newLimiter(c cfg, b func(ratelimiter.RateLimiterBuilder[int])) *limiter {
 	return l
 }
 
+type model = rlmodel.Model
+
 func newModel(c cfg) model {
 	if c.Kind == "smooth" {
-		return &smoothModel{interval: c.Unit}
+		return rlmodel.NewSmooth(c.Unit)
 	}
-	return &burstyModel{period: c.Unit, max: c.Max, used: map[int64]int{}}
+	return rlmodel.NewBursty(c.Max, c.Unit)
 }
 
 // call performs the operation on the real limiter at instant o.T and returns the normalised response.
@@ -111,14 +114,14 @@ func (l *limiter) call(o *op) int64 {
 func modelCall(m model, o *op) int64 {
 	switch o.Op {
 	case "try":
-		if m.acquire(o.T, o.N, 0) == 0 {
+		if m.Acquire(o.T, o.N, 0) == 0 {
 			return 0
 		}
 		return -1
 	case "reserve":
-		return m.acquire(o.T, o.N, -1)
+		return m.Acquire(o.T, o.N, -1)
 	default:
-		return m.acquire(o.T, o.N, o.MW)
+		return m.Acquire(o.T, o.N, o.MW)
 	}
 }
 
@@ -262,7 +265,7 @@ func genOp(t *rapid.T, c cfg, now int64, m model, lastUsable int64) op {
 	}
 	o.Op = rapid.SampledFrom([]string{"try", "reserve", "tryreserve", "tryreserve"}).Draw(t, "op")
 	if o.Op == "tryreserve" {
-		pred := m.clone().acquire(o.T, o.N, -1)
+		pred := m.Clone().Acquire(o.T, o.N, -1)
 		switch rapid.IntRange(0, 6).Draw(t, "mwClass") {
 		case 0:
 			o.MW = 0
@@ -546,7 +549,7 @@ func linearize(m model, reqs []creq, left int) bool {
 			continue
 		}
 		tried[k] = true
-		mc := m.clone()
+		mc := m.Clone()
 		if modelCall(mc, &o) != o.Got {
 			continue
 		}
@@ -554,10 +557,10 @@ func linearize(m model, reqs []creq, left int) bool {
 		if linearize(mc, reqs, left-1) {
 			// commit: copy state back
 			switch mm := m.(type) {
-			case *smoothModel:
-				*mm = *(mc.(*smoothModel))
-			case *burstyModel:
-				*mm = *(mc.(*burstyModel))
+			case *rlmodel.Smooth:
+				*mm = *(mc.(*rlmodel.Smooth))
+			case *rlmodel.Bursty:
+				*mm = *(mc.(*rlmodel.Bursty))
 			}
 			reqs[i].done = false
 			return true
@@ -697,7 +700,7 @@ func TestBlockingAcquire(t *testing.T) {
 		if unbounded {
 			effMW = -1
 		}
-		want := m.clone().acquire(l.now, n, effMW)
+		want := m.Clone().Acquire(l.now, n, effMW)
 		if want > int64(40*time.Millisecond) {
 			t.Skip("predicted wait too long to sleep through")
 		}
@@ -754,7 +757,7 @@ func TestBlockingAcquire(t *testing.T) {
 			}
 		case err == nil:
 			class = "granted"
-			m.acquire(l.now, n, effMW)
+			m.Acquire(l.now, n, effMW)
 			if elapsed < time.Duration(want) {
 				bad("early-success", "returned nil after %v, before the wait of %v elapsed", elapsed, time.Duration(want))
 			}
@@ -768,7 +771,7 @@ func TestBlockingAcquire(t *testing.T) {
 			}
 		default:
 			class = "ctx-error"
-			m.acquire(l.now, n, effMW) // the reservation was made before waiting
+			m.Acquire(l.now, n, effMW) // the reservation was made before waiting
 			if ctxKind != "cancelled" && ctxKind != "cancel-during" {
 				bad("unexpected-error", "unexpected error %v", err)
 			}
